@@ -28,6 +28,16 @@ for d in sys.argv[1:]:
     open(os.path.join(out, 'demo.py'), 'w').write(demo)
     shutil.copy(os.path.join(d, 'patch.diff'), os.path.join(out, 'patch.diff'))
     rec = {'verified_by': 'tools/seed_mutants.py', 'at': time.strftime('%Y-%m-%dT%H:%M:%SZ', time.gmtime())}
+    prev = None
+    if os.path.exists(os.path.join(out, 'meta.json')):          # a re-run after the machinery was extended: keep the first verdict
+        try:
+            _old = json.load(open(os.path.join(out, 'meta.json')))
+            prev = _old.get('first_run') or _old.get('verification')
+            for _k in ('judgement', 't1_recheck', 't1_sweep'):
+                if _k in _old:
+                    meta[_k] = _old[_k]
+        except Exception:
+            prev = None
     try:
         restore()
         rc0, _ = sh(f'/venv/bin/python {out}/demo.py', 900)
@@ -56,6 +66,8 @@ for d in sys.argv[1:]:
     finally:
         restore()
         meta['verification'] = rec
+        if prev and prev.get('at') != rec.get('at'):
+            meta['first_run'] = prev
         meta['id'] = sid
         json.dump(meta, open(os.path.join(out, 'meta.json'), 'w'), indent=1)
         print(sid, 'clean', rec.get('demo_exit_clean'), 'patched', rec.get('demo_exit_patched'), '|', rec.get('baseline_tests_with_patch'),
